@@ -47,7 +47,8 @@ func fnClientUnblock(ctx *cmdContext, args map[string]any) (output respValue, er
 	defer clientsMu.Unlock()
 
 	client, exists := clients[id]
-	if exists {
+	if exists && client.isBlocked() {
+		// only a client that is actually blocked counts (and gets the signal)
 		reason := ""
 		if isError {
 			reason = "UNBLOCKED client unblocked via CLIENT UNBLOCK"
